@@ -62,7 +62,8 @@ impl<'a> ConfigExtractor<'a> {
 
     /// A configuration value that becomes a program counter
     pub fn check_address(&self, key: &str, address: i64) -> CoreResult<i64> {
-        if (0..=0x10000).contains(&address) {
+        // (an address, not an end: a segment that starts at $10000 has no start address to put into a .prg header)
+        if (0..=0xffff).contains(&address) {
             Ok(address)
         } else {
             let span = self
@@ -71,7 +72,7 @@ impl<'a> ConfigExtractor<'a> {
                 .unwrap_or(self.config_span);
             Err(Diagnostic::error()
                 .with_message(format!(
-                    "'{}' must lie between 0 and $10000, not {}",
+                    "'{}' must lie between 0 and $FFFF, not {}",
                     key, address
                 ))
                 .with_labels(vec![span.to_label()])
